@@ -186,6 +186,9 @@ def make_harness(P):
             psi.coeff = c0
             off = ctx.real("offset", 0.4)
             dt = ctx.real("dt", 0.2)
+            # keep the offset phase away from multiples of pi so that a counterexample found with the uninterpreted cos/sin is
+            # also one for the real functions (replay); the proof itself only uses cos^2 + sin^2 = 1
+            ctx.assume(ctx.all([ctx.lt(0.25, off), ctx.lt(off, 1.5), ctx.lt(0.25, dt), ctx.lt(dt, 1.5)]), "0.25 < offset, dt < 1.5")
             if ctx.symbolic:
                 th = S._lift(off * dt)
                 c_, s_ = th.cos(), th.sin()
